@@ -38,7 +38,9 @@ fn common_grammar() -> Grammar {
             P::Empty,
             P::AnyNl,
         ],
-        quants: quants_full(),
+        // no `{0}`: the regex crate drops a zero-times repeat together with its capture groups
+        // (F17), so such patterns do not mean the same in both crates
+        quants: quants_full().into_iter().filter(|q| q.1 != Some(0)).collect(),
         modes: vec![Mode::Greedy, Mode::Lazy],
         looks: vec![],
         groups: true,
@@ -139,7 +141,7 @@ pub fn run_c04(cfg: &Cfg) {
     let pats = common_patterns(cfg);
     let mut txts = texts("c01", "quick");
     txts.retain(|t| t.chars().count() <= 4 || !t.chars().all(|c| c == 'a' || c == 'b'));
-    for t in ["ab cd", "a1 b2", "Ab", "aB", "É", "éÉ", " a ", "a_b", "1a", "ab\ncd"] {
+    for t in ["ab cd", "a1 b2", "Ab", "aB", "É", "éÉ", " a ", "a_b", "1a", "ab\ncd", "अ", "aअ", "अ ก", "ก", "ÿ a", "日a"] {
         txts.push(t.to_string());
     }
     let templates = ["x", "<$0>", "[$1]", "${1}a$2", "$n-$x", "$$"];
@@ -171,12 +173,14 @@ pub fn run_c04(cfg: &Cfg) {
         };
         s.count("patterns");
         let known_f1 = p == r"(?:|a)*\b";
-        if fx.captures_len() != rx.captures_len() {
+        // (a regex-crate pattern whose group sits under a zero-times repeat loses that group there)
+        let zero_rep = p.contains("{0}") || p.contains("{0,0}");
+        if !zero_rep && fx.captures_len() != rx.captures_len() {
             s.violation("C04", "captures_len", &[("pattern", p.clone()), ("detail", format!("{} vs {}", fx.captures_len(), rx.captures_len()))]);
         }
         let fnames: Vec<Option<String>> = fx.capture_names().map(|n| n.map(|x| x.to_string())).collect();
         let rnames: Vec<Option<String>> = rx.capture_names().map(|n| n.map(|x| x.to_string())).collect();
-        if fnames != rnames {
+        if !zero_rep && fnames != rnames {
             s.violation("C04", "capture_names", &[("pattern", p.clone()), ("detail", format!("{:?} vs {:?}", fnames, rnames))]);
         }
         let witness_texts = vec!["a".to_string()];
